@@ -1,5 +1,124 @@
+import NessaiVerif.Model.Quadrature
 import NessaiVerif.Driver.Parse
-/- stub: replaced by the owner of this area -/
+/-
+Line protocol of the quadrature model (area token `quad`), run at `K := Rat`.
+
+Numbers in:  `p/q`, `p` or `a@e` (= a·2^e, e an integer).
+Numbers out: `m@e` = the exact rational result rounded toward zero to `outBits`+1 significant
+             bits (the exact values have 10^4–10^6 bits; the harness only takes logarithms of them).
+Shrinkage:   trailing tokens `t` (tOfN, exact) or `logt <keys:[n,..]> <vals:[r,..]>` (table n ↦ t).
+
+  quad sampler <n> <k> <Ls> <shrink…>    k dead points then the rest as live points through NestedSampler.finalise
+        → ok ns=[..] Zrect=<r> Z=<r> X=[..] W=[..] LX=[..]     (LX = get_logx_live_points(n) after the dead points)
+  quad incr <base> <ns:[n|none,..]> <Ls> <shrink…>   increment(L_i, nlive=ns_i) then finalise
+        → ok ns=[..] Zrect=<r> Z=<r> X=[..] W=[..]
+  quad cw int:<n>|arr:<[n,..]> <Ls> <shrink…>        compute_weights
+        → ok Z=<r> W=[..] | err=value | err=index
+  quad sched incr <k> <n> | quad sched onepass <len> <n>
+  quad round <r> <bits>                               the output rounding itself
+-/
 namespace NessaiVerif.Driver.Quad
-def handle (_toks : List String) : String := "bad-op"
+open NessaiVerif NessaiVerif.Parse NessaiVerif.Quad
+
+def outBits : Nat := 256
+
+/-- `a@e` ↦ a·2^e -/
+def parseNum? (s : String) : Option Rat :=
+  match s.splitOn "@" with
+  | [a, e] => do
+      let a ← a.toInt?
+      let e ← e.toInt?
+      if e ≥ 0 then some ((a <<< e.toNat : Int) : Rat) else some (mkRat a (1 <<< (-e).toNat))
+  | _ => parseRat? s
+
+/-- round toward zero to `bits`+1 significant bits: `(m, e)` with `|m|·2^e ≤ |r| < (|m|+1)·2^e` -/
+def roundDy (bits : Nat) (r : Rat) : Int × Int :=
+  if r.num == 0 then (0, 0) else
+  let a := r.num.natAbs
+  let d := r.den
+  let s : Int := (bits : Int) + (d.log2 : Int) - (a.log2 : Int)
+  let m : Nat := if s ≥ 0 then (a <<< s.toNat) / d else a / (d <<< (-s).toNat)
+  (if r.num < 0 then -(m : Int) else (m : Int), -s)
+
+def showDy (r : Rat) : String :=
+  let (m, e) := roundDy outBits r
+  s!"{m}@{e}"
+
+def showErr : Err → String
+  | .valueErr => "err=value"
+  | .indexErr => "err=index"
+
+def lookup (keys : List Nat) (vals : List Rat) (n : Nat) : Rat :=
+  match keys, vals with
+  | k :: ks, v :: vs => if k == n then v else lookup ks vs n
+  | _, _ => 0
+
+/-- shrink spec → (shrink function, predicate "this live count is covered") -/
+def parseShrink? (toks : List String) : Option ((Nat → Rat) × (Nat → Bool)) :=
+  match toks with
+  | ["t"] => some (tOfN, fun _ => true)
+  | ["logt", ks, vs] => do
+      let ks ← parseList? parseNat? ks
+      let vs ← parseList? parseNum? vs
+      if ks.length ≠ vs.length then none else some (lookup ks vs, fun n => ks.contains n)
+  | _ => none
+
+def showSt (s : St Rat) (zrect : Rat) : String :=
+  s!"ns={showList toString s.ns} Zrect={showDy zrect} Z={showDy s.finalise} " ++
+  s!"X={showList showDy s.Xs} W={showList showDy s.postW}"
+
+def parseNLive? (s : String) : Option NLive :=
+  match s.splitOn ":" with
+  | ["int", n] => (parseNat? n).map NLive.int
+  | ["arr", ns] => (parseList? parseNat? ns).map NLive.arr
+  | _ => none
+
+def handle (toks : List String) : String :=
+  match toks with
+  | "sampler" :: n :: k :: ls :: sh =>
+    match parseNat? n, parseNat? k, parseList? parseNum? ls, parseShrink? sh with
+    | some n, some k, some ls, some (shrink, covered) =>
+      if !((n :: countdown n).all covered) then "bad-op" else
+      let dead := ls.take k
+      let live := ls.drop k
+      let mid := consume shrink (St.init n) dead
+      let s := sampler shrink n dead live
+      "ok " ++ showSt s s.Z ++ s!" LX={showList showDy (mid.logxLive shrink n)}"
+    | _, _, _, _ => "bad-op"
+  | "incr" :: base :: ns :: ls :: sh =>
+    match parseNat? base, parseList? (parseOpt? parseNat?) ns, parseList? parseNum? ls, parseShrink? sh with
+    | some base, some ns, some ls, some (shrink, covered) =>
+      if ns.length ≠ ls.length then "bad-op"
+      else if !((ns.map (·.getD base)).all covered) then "bad-op" else
+      let s := (St.init base).incrMany shrink (ls.zip ns)
+      "ok " ++ showSt s s.Z
+    | _, _, _, _ => "bad-op"
+  | "cw" :: nl :: ls :: sh =>
+    match parseNLive? nl, parseList? parseNum? ls, parseShrink? sh with
+    | some nl, some ls, some (shrink, covered) =>
+      let need := match nl with
+        | .int n => if n = 0 then [] else n :: countdown n
+        | .arr ns => ns
+      if !(need.all covered) then "bad-op" else
+      match computeWeights shrink ls nl with
+      | .ok (z, w) => s!"ok Z={showDy z} W={showList showDy w}"
+      | .error e => showErr e
+    | _, _, _ => "bad-op"
+  | ["sched", "incr", k, n] =>
+    match parseNat? k, parseNat? n with
+    | some k, some n => showList toString (scheduleIncr k n)
+    | _, _ => "bad-op"
+  | ["sched", "onepass", len, n] =>
+    match parseNat? len, parseNat? n with
+    | some len, some n =>
+      match scheduleOnePass len n with
+      | .ok s => "ok " ++ showList toString s
+      | .error e => showErr e
+    | _, _ => "bad-op"
+  | ["round", r, bits] =>
+    match parseNum? r, parseNat? bits with
+    | some r, some bits => let (m, e) := roundDy bits r; s!"{m}@{e}"
+    | _, _ => "bad-op"
+  | _ => "bad-op"
+
 end NessaiVerif.Driver.Quad
